@@ -35,6 +35,7 @@ import (
 	protoobject "github.com/nspcc-dev/neofs-sdk-go/proto/object"
 	"github.com/nspcc-dev/neofs-sdk-go/proto/refs"
 	protosession "github.com/nspcc-dev/neofs-sdk-go/proto/session"
+	"github.com/nspcc-dev/neofs-sdk-go/user"
 	"google.golang.org/grpc/peer"
 )
 
@@ -430,6 +431,7 @@ type scSigAbs struct {
 	scheme  int32
 	kc      string // e / b / k
 	signed  int    // message id, -1 = of no current message
+	kid     int    // name of the key bytes (scKeyID)
 }
 
 type scLayerAbs struct {
@@ -452,6 +454,26 @@ var scGoodKeys = func() map[string]bool {
 	}
 	return m
 }()
+
+// scKeyID names key bytes: 0 empty, 1..8 the ECDSA keys of the universe, 11..18 the N3 verification scripts of the
+// same accounts, 20 the undecodable key, 30 anything else.
+func scKeyID(b []byte) int {
+	if len(b) == 0 {
+		return 0
+	}
+	for i := range scKeys {
+		if string(b) == string(scPub(i)) {
+			return 1 + i
+		}
+		if string(b) == string(scScript(i)) {
+			return 11 + i
+		}
+	}
+	if string(b) == string(scBadKey) {
+		return 20
+	}
+	return 30
+}
 
 func scAbstract(req *protoobject.GetRequest, t *scTable) scAbs {
 	ids := map[string]int{"": 0}
@@ -481,7 +503,7 @@ func scAbstract(req *protoobject.GetRequest, t *scTable) scAbs {
 			if s == nil {
 				continue
 			}
-			x := scSigAbs{present: true, scheme: int32(s.Scheme), signed: -1}
+			x := scSigAbs{present: true, scheme: int32(s.Scheme), signed: -1, kid: scKeyID(s.Key)}
 			switch {
 			case len(s.Key) == 0:
 				x.kc = "e"
@@ -531,7 +553,7 @@ func (a scAbs) String() string {
 			if s.signed >= 0 {
 				sg = strconv.Itoa(s.signed)
 			}
-			fmt.Fprintf(&sb, "/%d.%s.%s", s.scheme, s.kc, sg)
+			fmt.Fprintf(&sb, "/%d.%s.%s.%d", s.scheme, s.kc, sg, s.kid)
 		}
 	}
 	return sb.String()
@@ -678,6 +700,51 @@ func scRun(api string, trusted bool, req *protoobject.GetRequest, t *scTable) (o
 	return scErrClass(err)
 }
 
+// scAuthor runs the real icrypto.GetRequestAuthor on the request's verification header: the name of the returned key
+// bytes (scKeyID) or the failure; idOK = the returned account is the one derived from that key.
+func scAuthor(req *protoobject.GetRequest) (obs string, kid int, scheme int32, idOK bool) {
+	defer func() {
+		if r := recover(); r != nil {
+			obs, kid = "panic", -1
+		}
+	}()
+	id, key, err := verifbridge.CryptoGetRequestAuthor(req.VerifyHeader)
+	if err != nil {
+		switch msg := err.Error(); {
+		case msg == "missing verification header":
+			return "no-vh", -1, 0, true
+		case msg == "missing body signature":
+			return "no-body-sig", -1, 0, true
+		case strings.HasPrefix(msg, "unsupported scheme"):
+			return "bad-scheme", -1, 0, true
+		}
+		return "other-error", -1, 0, true
+	}
+	kid = scKeyID(key)
+	// the account must be derived from the returned key bytes: the user id of an ECDSA key, or the account of a script
+	idOK = id == user.NewFromScriptHash(hash.Hash160(key))
+	if kid >= 1 && kid <= 8 {
+		idOK = idOK || id == user.NewFromECDSAPublicKey(scKeys[kid-1].PrivateKey.PublicKey)
+	}
+	return strconv.Itoa(kid), kid, scheme, idOK
+}
+
+// scVerifiedBodySigners: key ids of the body signatures that verification of THIS request examined and that are good
+// over its body (declaratively: >= 2.25 variant - the top layer only; chain variant - every layer).
+func scVerifiedBodySigners(a scAbs, n3on bool) map[int]bool {
+	res := map[int]bool{}
+	chain := len(a.metas) == 0 || a.metas[0].hv == 0 || a.metas[0].major < 2 || (a.metas[0].major == 2 && a.metas[0].minor < 25)
+	for i, v := range a.vs {
+		if !chain && i > 0 {
+			break
+		}
+		if v.sigs[2].good(a.body, n3on) {
+			res[v.sigs[2].kid] = true
+		}
+	}
+	return res
+}
+
 var scRecipeKeys = []string{"seed", "depth", "sch", "ver", "ttl", "api", "trusted", "mut"}
 
 func scExec(c *runCtx, ops []string) {
@@ -711,7 +778,13 @@ func scExec(c *runCtx, ops []string) {
 		full := sb.String()
 
 		obs := scRun(api, trusted, req, t)
-		c.emit(full, obs)
+		author, authorKey, _, authorIDOK := scAuthor(req)
+		c.emit(full, obs+" a="+author)
+		if authorKey >= 0 {
+			c.count("author:key")
+		} else {
+			c.count("author:" + author)
+		}
 
 		c.count("api:" + api)
 		c.count("depth:" + strconv.Itoa(len(abs.vs)))
@@ -740,6 +813,19 @@ func scExec(c *runCtx, ops []string) {
 		c.oracle("accepted-only-if-every-layer-verifies-or-exempt", !ok || spec || exempt, detail)
 		c.oracle("well-signed-request-accepted", !(spec || exempt) || ok, detail)
 		c.oracle("no-panic", obs != "=> panic", detail)
+		// whose request is it: the author of an ACCEPTED request is a key whose signature over this very body was verified
+		if ok {
+			detail := detail + " a=" + author
+			c.oracle("author-of-accepted-request-never-panics", author != "panic", detail)
+			if authorKey >= 0 {
+				c.oracle("author-is-a-key-whose-body-signature-was-verified", scVerifiedBodySigners(abs, n3on)[authorKey],
+					detail+fmt.Sprintf(" (request attributed to key %d which made no verified signature over this body)", authorKey))
+				c.oracle("author-account-derived-from-returned-key", authorIDOK, detail)
+				if len(abs.vs) >= 2 {
+					c.count("author:forwarded-accepted")
+				}
+			}
+		}
 		if len(muts) == 0 && o.int("depth") >= 1 {
 			homog := true
 			vs := scSplit(o.kv["ver"])
@@ -850,6 +936,50 @@ func scGen(c *runCtx, run func([]string)) {
 				ops = append(ops, line(next(), depth, sch, rep(ver, depth), 1, api, 0, []string{fmt.Sprintf("ek:%d:%s", c.rng.IntN(depth), kinds[c.rng.IntN(3)])}))
 				ops = append(ops, line(next(), depth, sch, rep(ver, depth), 1, api, 0, []string{"bb"}))
 			}
+		}
+	}
+	// 5. whose request is it (GetRequestAuthor): requests with nested origin headers that name ANOTHER key, meta versions of
+	// the top layer around 2.25. An existing request (1..3 layers signed by keys 0..2 under inner version V) is taken by key K,
+	// optionally given another body, wrapped into one more meta header of version W and signed the way forwarding does; or the
+	// top layer of an existing chain is re-signed by K in place (body and meta signatures) over a changed body.
+	for depth := 1; depth <= 3; depth++ {
+		for _, inner := range []string{"2.18", "2.25", "n"} {
+			for _, outer := range []string{"2.24", "2.25", "2.26", "3.0", "1.99", "n"} {
+				for _, bodyMut := range []string{"", "ba", "bb"} {
+					sch := make([]int, depth)
+					for i := range sch {
+						sch[i] = c.rng.IntN(3)
+					}
+					k, ksch := 4+c.rng.IntN(4), c.rng.IntN(3)
+					var muts []string
+					if bodyMut != "" {
+						muts = append(muts, bodyMut)
+					}
+					muts = append(muts, fmt.Sprintf("fw:%d:%d:%s", k, ksch, outer))
+					ops = append(ops, line(next(), depth, sch, rep(inner, depth), 1+c.rng.IntN(2), apis[c.rng.IntN(3)], c.rng.IntN(2), muts))
+				}
+			}
+			// in place: change the body, re-sign the top layer's body (and meta) signature by another key
+			for _, top := range []string{"2.24", "2.25", "2.26", "n"} {
+				sch := make([]int, depth)
+				for i := range sch {
+					sch[i] = c.rng.IntN(3)
+				}
+				k, ksch := 4+c.rng.IntN(4), c.rng.IntN(3)
+				muts := []string{fmt.Sprintf("mm:0:v%s", top), "ba", fmt.Sprintf("rs:0:b:%d:%d", k, ksch), fmt.Sprintf("rs:0:m:%d:%d", k, ksch)}
+				if top == "n" {
+					muts[0] = "mm:0:vn"
+				}
+				ops = append(ops, line(next(), depth, sch, rep(inner, depth), 1, apis[c.rng.IntN(3)], c.rng.IntN(2), muts))
+			}
+		}
+	}
+	// N3 author (account of the verification script) and the scheme / key defects GetRequestAuthor itself has to survive
+	for _, api := range apis {
+		ops = append(ops, line(next(), 1, []int{3}, []string{"2.25"}, 2, api, 0, nil))
+		ops = append(ops, line(next(), 2, []int{0, 3}, []string{"2.25", "2.25"}, 2, api, 0, nil))
+		for _, mut := range []string{"sc:0:b:4", "sc:0:b:-1", "sc:0:b:3", "bk:0:b", "ek:0:b", "ns:0:b", "sk:0:b:6"} {
+			ops = append(ops, line(next(), 1+c.rng.IntN(2), []int{c.rng.IntN(3), c.rng.IntN(3)}, []string{"2.25", "2.25"}, 2, api, 0, []string{mut}))
 		}
 	}
 	// 4. seeded random requests with 0..3 mutations, mixed versions and schemes
